@@ -279,6 +279,18 @@ func (x *Exec) callStatic(fr *Frame, st *State, in ssa.Instruction, fn *ssa.Func
 // to directly get unknown contents (objects reachable only through further pointers are not touched: stated abstraction).
 func (x *Exec) havocPointees(st *State, args []*Val, callee string) {
 	for _, a := range args {
+		if a != nil && a.K == VIface && a.Tag != nil && a.Tag.K == TNum {
+			// a pointer passed as an interface value (e.g. a ParamSet): the object behind it
+			if T := typeIDTypes[int(a.Tag.Num.Int64())]; T != nil && classify(T) == VPtr {
+				if et := ptrElem(T); et != nil && classify(et) == VStruct {
+					nv := x.freshLike(st, &Val{Typ: et}, "out")
+					if err := st.storeObj(et, a.T, "", nv); err == nil {
+						x.note("out-parameter of unmodelled call " + callee + ": pointee set to an unknown value")
+					}
+				}
+			}
+			continue
+		}
 		if a == nil || a.K != VPtr || a.Ptr == nil || len(a.Ptr.Path) != 0 {
 			continue
 		}
